@@ -440,8 +440,10 @@ def numpy_fn(case, r):
                 want = np.asarray(_call(func, case, ac, bc, raw=True), dtype=np.float64)
                 gotc = um.to_cgs(gv, gu)
             rtol = 1e-5 if lowp else 1e-9
-            scale = np.maximum(np.abs(want), np.max(np.abs(ac)) if ac.size else 0.0)
+            fin_ac = np.abs(ac[np.isfinite(ac)]) if ac.size else np.zeros(0)       # (NaN / inf operands must not poison the scale)
+            scale = np.maximum(np.where(np.isfinite(want), np.abs(want), 0.0), fin_ac.max() if fin_ac.size else 0.0)
             ok = (np.abs(gotc - want) <= rtol * scale) | (gotc == want) | (np.isnan(gotc) & np.isnan(want))
+            ok |= np.abs(gotc - want) <= rtol * np.abs(want)
             if not np.all(ok):
                 if cls == TRANS:
                     r.bad([name, "values"], f"np.{name}({_describe(case)}): got {gotc.tolist()} cgs, want {want.tolist()}")
